@@ -145,6 +145,47 @@ pub fn run(runner: &mut Runner, data_dir: &str, shapes: Option<&str>, seed: u64,
                  format!("h{k}"), banks, small);
         }
     }
+    // systematic near-valid packets inside a small event: every single-bit flip of the TRG packet, of the
+    // ADC header/footer, of a chunk header (CRCs refreshed so that the flip is seen behind the CRC check)
+    // and of the PWB payload header (re-chunked with valid CRCs)
+    {
+        let wire = 77usize;
+        let (col, row) = (9usize, 123usize);
+        let (board, dev, mac, chip, k) = maps.pad[&(col, row)].clone();
+        let wbank = wire_bank(&maps, wire, wire_wave(wire, 130));
+        let pbanks = pad_banks(&board, dev, mac, chip, &[(k, pad_wave(col, row, 120))], 4000, 3);
+        let tbank = trg_bank_b(1234);
+        let mk = |w: &BankB, p: &BankB, t: &BankB| vec![w.clone(), p.clone(), t.clone()];
+        for bit in 0..640 {
+            let mut t = tbank.clone();
+            t.data[bit / 8] ^= 1 << (bit % 8);
+            emit(runner, SIM, "sweep-trg", format!("t{bit}"), mk(&wbank, &pbanks[0], &t), true);
+        }
+        let n = wbank.data.len();
+        for pos in (0..32).chain(n - 4..n) {
+            for bit in 0..8 {
+                let mut w = wbank.clone();
+                w.data[pos] ^= 1 << bit;
+                emit(runner, SIM, "sweep-adc", format!("a{pos}.{bit}"), mk(&w, &pbanks[0], &tbank), true);
+            }
+        }
+        for pos in 0..16 {
+            for bit in 0..8 {
+                let mut c = pbanks[0].clone();
+                c.data[pos] ^= 1 << bit;
+                refresh_chunk_crcs(&mut c.data);
+                emit(runner, SIM, "sweep-chunk", format!("c{pos}.{bit}"), mk(&wbank, &c, &tbank), true);
+            }
+        }
+        for pos in 20..20 + 56 {
+            for bit in 0..8 {
+                let mut c = pbanks[0].clone();
+                c.data[pos] ^= 1 << bit;
+                refresh_chunk_crcs(&mut c.data);
+                emit(runner, SIM, "sweep-pwb", format!("p{pos}.{bit}"), mk(&wbank, &c, &tbank), true);
+            }
+        }
+    }
     // random names and bytes
     let names: Vec<String> = {
         let mut v: Vec<String> = vec!["ATAT", "TRBA", "MCVX", "SEQ2", "CBF1", "C09A", "C18V", "B09F", "PC12", "PC00", "", "A", "ATATA", "c09a", "C09W", "PCAB", "C\u{e9}9", "\u{1F600}", "PC\u{661}\u{662}"]
